@@ -19,12 +19,13 @@ from __future__ import annotations
 import ast
 from typing import Dict, List, Optional, Set
 
-from asl.absint import UNKNOWN, Machine
+from asl.absint import STOP, UNKNOWN, AbsEval, Machine
 from asl.cfg import Node, cfg_of
 from asl.flow import find_path, node_defs, pretty_path, reaching
 from asl.loader import AnalysisError, norm, own_nodes
 from asl.values import mentions
 from . import c01
+from .common import make_resolver
 from .lru import enumerate_paths
 
 LEVEL = {
@@ -323,24 +324,192 @@ def r05_4(ctx) -> None:
                   witness=str(vals))
 
 
+class _SliceOps:
+    """islice over a source of ``n`` items I0..I(n-1): integers are concrete (they are the
+    caller's slice parameters), items are symbols; the one stream position is shared by every
+    loop that advances the source (directly, borrowed or enumerated)."""
+
+    def __init__(self, ctx, module, n_items: int):
+        self.ctx, self.module, self.n = ctx, module, n_items
+        self.ev = AbsEval(self)
+
+    def _resolved(self, func_node) -> str:
+        r = self.ctx.pkg.resolve_expr_global(self.module, func_node)
+        return r.qual.split(".")[-1] if r.kind in ("stdlib", "builtin", "lib") else norm(func_node)
+
+    def entered(self, item, env, ev):
+        v = ev.eval(item.context_expr, env)
+        return v
+
+    def call(self, func, args, kwargs, node, env):
+        last = self._resolved(node.func)
+        if last == "slice":
+            vals = []
+            for a in node.args:
+                if isinstance(a, ast.Starred):
+                    v = self.ev.eval(a.value, env)
+                    if not isinstance(v, tuple):
+                        return UNKNOWN
+                    vals.extend(v)
+                else:
+                    vals.append(self.ev.eval(a, env))
+            try:
+                sl = slice(*vals)
+            except Exception:  # noqa: BLE001
+                return UNKNOWN
+            return ("slice", sl.start, sl.stop, sl.step)
+        if last in ("ScopedIter", "borrow", "aiter", "iter") and args:
+            return args[0]
+        if last == "enumerate" and args:
+            return ("enum", args[0], kwargs.get("start", args[1] if len(args) > 1 else 0))
+        return UNKNOWN
+
+    def other(self, e, env, ev):
+        if isinstance(e, ast.Starred):
+            return ("*", ev.eval(e.value, env))
+        return UNKNOWN
+
+    def attr(self, value, name, node, env):
+        if isinstance(value, tuple) and value[:1] == ("slice",) and name in ("start", "stop", "step"):
+            return value[{"start": 1, "stop": 2, "step": 3}[name]]
+        return UNKNOWN
+
+    def binop(self, op, left, right, env):
+        if isinstance(left, int) and isinstance(right, int) and not isinstance(left, bool) and not isinstance(right, bool):
+            try:
+                return {"Add": left + right, "Sub": left - right, "Mult": left * right, "Mod": left % right if right else UNKNOWN,
+                        "FloorDiv": left // right if right else UNKNOWN}.get(op, UNKNOWN)
+            except Exception:  # noqa: BLE001
+                return UNKNOWN
+        return UNKNOWN
+
+    def compare(self, op, left, right, env):
+        if isinstance(left, int) and isinstance(right, int):
+            return {"Lt": left < right, "LtE": left <= right, "Gt": left > right, "GtE": left >= right,
+                    "Eq": left == right, "NotEq": left != right}.get(op, UNKNOWN)
+        if op in ("Is", "IsNot") and (left is None or right is None):
+            same = left is None and right is None
+            return same if op == "Is" else not same
+        return UNKNOWN
+
+    def augstore(self, node, env, ev):
+        st = node.ast
+        if isinstance(st, ast.AugAssign) and isinstance(st.target, ast.Name):
+            cur = env.get(st.target.id, UNKNOWN)
+            env[st.target.id] = self.binop(type(st.op).__name__, cur, ev.eval(st.value, env), env)
+
+    def next(self, node, env):
+        src = self.ev.eval(node.info.get("iter"), env)
+        base, enum = src, None
+        if isinstance(src, tuple) and src[:1] == ("enum",):
+            base, enum = src[1], src[2]
+        if base != "SRC":
+            return UNKNOWN
+        pos = env.get("@pos", 0)
+        if pos >= self.n:
+            env["@trace"] = env.get("@trace", ()) + (("end",),)
+            return STOP
+        env["@pos"] = pos + 1
+        env["@trace"] = env.get("@trace", ()) + (("pull", pos),)
+        item = ("item", pos)
+        if enum is not None:
+            key = ("enumcount", node.id)
+            counts = dict(env.get("@counts", {}))
+            k = counts.get(key, enum)
+            counts[key] = k + 1
+            env["@counts"] = counts
+            return (k, item)
+        return item
+
+    def iter(self, node, env):
+        counts = dict(env.get("@counts", {}))
+        counts.pop(("enumcount", [s for (lab, s) in node.succ if lab == "n"][0].id), None)
+        env["@counts"] = counts
+
+    def visit(self, node, env, ev):
+        if node.kind == "yield":
+            env["@trace"] = env.get("@trace", ()) + (("yield", ev.eval(node.info.get("value"), env)),)
+
+
+def _islice_spec(n: int, start, stop, step):
+    """itertools.islice over n items: (indexes yielded, number of items consumed)."""
+    start = start or 0
+    step = step or 1
+    nxt, cnt, out = start, 0, []
+    while True:
+        while cnt < nxt:
+            if cnt >= n:
+                return out, cnt
+            cnt += 1
+        if stop is not None and cnt >= stop:
+            return out, cnt
+        if cnt >= n:
+            return out, cnt
+        out.append(cnt)
+        cnt += 1
+        nxt += step
+        if stop is not None and nxt > stop:
+            nxt = stop
+
+
 def r05_5(ctx) -> None:
+    """islice as a table: for every (start, stop, step) in a small cube and sources of 0..6 items
+    the items yielded and the number of items pulled equal itertools.islice's (the statement:
+    "stops without touching item stop", "never consumes more than its counterpart")."""
     u = ctx.unit("itertools.islice")
     cfg = cfg_of(u)
-    pulls = [n for n in cfg.nodes if n.kind == "pull" and not n.tag]
-    found = 0
-    for p in pulls:
-        loop = p.ast
-        rets = [n for n in cfg.nodes if n.kind == "return" and not n.tag and n.in_region("loop", loop)]
-        ys = [n for n in cfg.nodes if n.kind == "yield" and not n.tag and n.in_region("loop", loop)]
-        if not rets or not ys:
-            continue
-        found += 1
-        for y in ys:
-            path = find_path(y, lambda x: x in rets, avoid=lambda x: x.kind == "pull",
-                             edge_ok=lambda a, lab, b: lab not in ("e", "p"))
-            ctx.check(path is not None, "R05.5", u, rets[0], "after yielding the last item of the slice the generator "
-                      "returns without pulling the item at `stop`", node=rets[0])
-    ctx.check(found >= 1, "R05.5", u, "islice", "the bounded slice loop has an in-loop stop test")
-    # an empty slice after the skip returns without pulling
-    early = [n for n in cfg.nodes if n.kind == "return" and not n.tag and not n.in_loop()]
-    ctx.check(bool(early), "R05.5", u, "islice", "stop <= start returns immediately after the skip phase")
+    p = u.param_names()[0]
+    va = u.node.args.vararg.arg if u.node.args.vararg else None
+    if va is None:
+        raise AnalysisError("islice signature changed (anchor moved)")
+    shapes = [(s,) for s in (0, 1, 2, 3)] + [(a, b) for a in (0, 1, 2) for b in (None, 0, 1, 2, 4)] + \
+             [(a, b, c) for a in (0, 1, 2) for b in (None, 1, 3, 4, 5) for c in (1, 2, 3)]
+    bad = 0
+    for args in shapes:
+        sl = slice(*args)
+        for n in (0, 2, 6):
+            ctx.count("islice_cells")
+            ops = _SliceOps(ctx, u.module, n)
+            outs = Machine(cfg, ops, resolver=make_resolver(ctx, u, ops, skip=("borrow", "aiter", "iter"))).run({p: "SRC", va: tuple(args)})
+            want_y, want_c = _islice_spec(n, sl.start, sl.stop, sl.step)
+            got = set()
+            for oc in outs:
+                tr = oc.env.get("@trace", ())
+                ys = tuple(e[1][1] if isinstance(e[1], tuple) and e[1][:1] == ("item",) else e[1] for e in tr if e[0] == "yield")
+                pulls = sum(1 for e in tr if e[0] == "pull")
+                got.add((ys, pulls, oc.terminal.kind))
+            ok = got == {(tuple(want_y), want_c, "exit")}
+            if not ok:
+                bad += 1
+                if bad <= 4:
+                    ctx.fail("R05.5", u, "islice", f"[islice(<{n} items>, {', '.join(map(str, args))})] yields / consumption differ from "
+                             "itertools.islice", witness=f"evaluated (yielded indexes, items pulled, exit): {sorted(map(str, got))[:2]}; "
+                             f"itertools.islice: yields {want_y}, pulls {want_c}")
+    if not bad:
+        ctx.ok("R05.5", u, f"islice equals itertools.islice in yielded indexes and in the number of items pulled for "
+               f"{len(shapes)} slicings x 3 source lengths")
+
+
+def run_thorough(ctx) -> None:
+    """Guard the specification function itself: _islice_spec against the interpreter's own
+    itertools.islice (the stdlib is executed here, never the repository)."""
+    import itertools as _it
+    ctx.rule("R05.T", "the islice specification used by R05.5 agrees with itertools.islice of the running interpreter")
+    for args in [(s,) for s in range(0, 5)] + [(a, b) for a in range(0, 4) for b in (None, 0, 1, 2, 3, 4, 7)] + \
+                [(a, b, c) for a in range(0, 4) for b in (None, 0, 1, 3, 4, 5, 7) for c in (1, 2, 3, 4)]:
+        for n in range(0, 8):
+            pulled = []
+
+            def src():
+                for i in range(n):
+                    pulled.append(i)
+                    yield i
+
+            got = list(_it.islice(src(), *args))
+            sl = slice(*args)
+            want_y, want_c = _islice_spec(n, sl.start, sl.stop, sl.step)
+            ctx.count("oracle_cells")
+            if got != want_y or len(pulled) != want_c:
+                raise AnalysisError(f"islice specification disagrees with itertools.islice for n={n} args={args}: "
+                                    f"spec {want_y}/{want_c}, stdlib {got}/{len(pulled)}")
+    ctx.ok("R05.T", "itertools (stdlib)", "specification function agrees with itertools.islice on every cell of the oracle cube")
